@@ -1,4 +1,5 @@
 import numpy as np
+import pandas as pd
 
 from PEPit.function import Function
 from PEPit.block_partition import BlockPartition
@@ -89,7 +90,7 @@ class BlockSmoothConvexFunction(Function):
 
         # Set tables_of_constraints attributes
         for k in range(self.partition.get_nb_blocks()):
-            self.tables_of_constraints["smoothness_convexity_block_{}".format(k)] = [[]]*len(self.list_of_points)
+            self.tables_of_constraints["smoothness_convexity_block_{}".format(k)] = [[] for _ in self.list_of_points]
 
         # Browse list of points and create interpolation constraints
         for i, point_i in enumerate(self.list_of_points):
@@ -124,3 +125,13 @@ class BlockSmoothConvexFunction(Function):
                                                                                                  xi_id, xj_id))
                         self.tables_of_constraints["smoothness_convexity_block_{}".format(k)][i].append(constraint)
                         self.list_of_class_constraints.append(constraint)
+
+        # Complete tables of constraints (one pandas.DataFrame per block, as for the other classes of functions)
+        point_names = [point[0].name or "Point_{}".format(point_index) for point_index, point in
+                       enumerate(self.list_of_points)]
+        for k in range(self.partition.get_nb_blocks()):
+            table_of_constraints = np.array(self.tables_of_constraints.pop("smoothness_convexity_block_{}".format(k)))
+            if table_of_constraints.shape != (0,):
+                df = pd.DataFrame(table_of_constraints, columns=point_names, index=point_names)
+                df.columns.name = "IC_{}".format(function_id)
+                self.tables_of_constraints["smoothness_convexity_block_{}".format(k)] = df
